@@ -29,6 +29,8 @@ pub struct SerializationContext<Output: BinaryOutput> {
 
 impl<Output: BinaryOutput> SerializationContext<Output> {
     pub fn new(output: Output) -> Self {
+        #[cfg(desert_verif)]
+        crate::verif::point("SerializationContext::new");
         Self {
             output,
             state: State::default(),
